@@ -100,3 +100,18 @@ Proofs/C18P.vos Proofs/C18P.vok Proofs/C18P.required_vos: Proofs/C18P.v Model/Ba
 Properties/C18.vo Properties/C18.glob Properties/C18.v.beautified Properties/C18.required_vo: Properties/C18.v Model/Base.vo Model/Schema.vo Model/Wire.vo Model/Typed.vo Model/Procs.vo Model/Inst.vo Spec/Tables.vo Spec/ProcTables.vo Proofs/Finite.vo Proofs/FramingP.vo Proofs/C18P.vo
 Properties/C18.vio: Properties/C18.v Model/Base.vio Model/Schema.vio Model/Wire.vio Model/Typed.vio Model/Procs.vio Model/Inst.vio Spec/Tables.vio Spec/ProcTables.vio Proofs/Finite.vio Proofs/FramingP.vio Proofs/C18P.vio
 Properties/C18.vos Properties/C18.vok Properties/C18.required_vos: Properties/C18.v Model/Base.vos Model/Schema.vos Model/Wire.vos Model/Typed.vos Model/Procs.vos Model/Inst.vos Spec/Tables.vos Spec/ProcTables.vos Proofs/Finite.vos Proofs/FramingP.vos Proofs/C18P.vos
+Proofs/LayoutP.vo Proofs/LayoutP.glob Proofs/LayoutP.v.beautified Proofs/LayoutP.required_vo: Proofs/LayoutP.v Model/Base.vo Model/Schema.vo Model/Wire.vo Model/Typed.vo Model/Procs.vo Proofs/WireP.vo
+Proofs/LayoutP.vio: Proofs/LayoutP.v Model/Base.vio Model/Schema.vio Model/Wire.vio Model/Typed.vio Model/Procs.vio Proofs/WireP.vio
+Proofs/LayoutP.vos Proofs/LayoutP.vok Proofs/LayoutP.required_vos: Proofs/LayoutP.v Model/Base.vos Model/Schema.vos Model/Wire.vos Model/Typed.vos Model/Procs.vos Proofs/WireP.vos
+Properties/C07.vo Properties/C07.glob Properties/C07.v.beautified Properties/C07.required_vo: Properties/C07.v Model/Base.vo Model/Schema.vo Model/Wire.vo Model/Typed.vo Model/Procs.vo Model/Inst.vo Spec/Tables.vo Spec/ProcTables.vo Proofs/Finite.vo Proofs/FramingP.vo Proofs/WireP.vo Proofs/LayoutP.vo Proofs/C18P.vo
+Properties/C07.vio: Properties/C07.v Model/Base.vio Model/Schema.vio Model/Wire.vio Model/Typed.vio Model/Procs.vio Model/Inst.vio Spec/Tables.vio Spec/ProcTables.vio Proofs/Finite.vio Proofs/FramingP.vio Proofs/WireP.vio Proofs/LayoutP.vio Proofs/C18P.vio
+Properties/C07.vos Properties/C07.vok Properties/C07.required_vos: Properties/C07.v Model/Base.vos Model/Schema.vos Model/Wire.vos Model/Typed.vos Model/Procs.vos Model/Inst.vos Spec/Tables.vos Spec/ProcTables.vos Proofs/Finite.vos Proofs/FramingP.vos Proofs/WireP.vos Proofs/LayoutP.vos Proofs/C18P.vos
+Properties/C09.vo Properties/C09.glob Properties/C09.v.beautified Properties/C09.required_vo: Properties/C09.v Model/Base.vo Model/Schema.vo Model/Wire.vo Model/Typed.vo Model/Procs.vo Model/Inst.vo Spec/Tables.vo Spec/ProcTables.vo Proofs/Finite.vo Proofs/FramingP.vo Proofs/WireP.vo Proofs/LayoutP.vo
+Properties/C09.vio: Properties/C09.v Model/Base.vio Model/Schema.vio Model/Wire.vio Model/Typed.vio Model/Procs.vio Model/Inst.vio Spec/Tables.vio Spec/ProcTables.vio Proofs/Finite.vio Proofs/FramingP.vio Proofs/WireP.vio Proofs/LayoutP.vio
+Properties/C09.vos Properties/C09.vok Properties/C09.required_vos: Properties/C09.v Model/Base.vos Model/Schema.vos Model/Wire.vos Model/Typed.vos Model/Procs.vos Model/Inst.vos Spec/Tables.vos Spec/ProcTables.vos Proofs/Finite.vos Proofs/FramingP.vos Proofs/WireP.vos Proofs/LayoutP.vos
+Proofs/U2fP.vo Proofs/U2fP.glob Proofs/U2fP.v.beautified Proofs/U2fP.required_vo: Proofs/U2fP.v Model/Base.vo Model/Schema.vo Model/Wire.vo Model/Typed.vo Model/Procs.vo Model/Inst.vo Spec/Tables.vo Spec/ProcTables.vo Proofs/Finite.vo Proofs/FramingP.vo Proofs/WireP.vo Proofs/C18P.vo
+Proofs/U2fP.vio: Proofs/U2fP.v Model/Base.vio Model/Schema.vio Model/Wire.vio Model/Typed.vio Model/Procs.vio Model/Inst.vio Spec/Tables.vio Spec/ProcTables.vio Proofs/Finite.vio Proofs/FramingP.vio Proofs/WireP.vio Proofs/C18P.vio
+Proofs/U2fP.vos Proofs/U2fP.vok Proofs/U2fP.required_vos: Proofs/U2fP.v Model/Base.vos Model/Schema.vos Model/Wire.vos Model/Typed.vos Model/Procs.vos Model/Inst.vos Spec/Tables.vos Spec/ProcTables.vos Proofs/Finite.vos Proofs/FramingP.vos Proofs/WireP.vos Proofs/C18P.vos
+Properties/C08.vo Properties/C08.glob Properties/C08.v.beautified Properties/C08.required_vo: Properties/C08.v Model/Base.vo Model/Schema.vo Model/Wire.vo Model/Typed.vo Model/Procs.vo Model/Inst.vo Spec/Tables.vo Spec/ProcTables.vo Proofs/Finite.vo Proofs/FramingP.vo Proofs/WireP.vo Proofs/C18P.vo Proofs/U2fP.vo
+Properties/C08.vio: Properties/C08.v Model/Base.vio Model/Schema.vio Model/Wire.vio Model/Typed.vio Model/Procs.vio Model/Inst.vio Spec/Tables.vio Spec/ProcTables.vio Proofs/Finite.vio Proofs/FramingP.vio Proofs/WireP.vio Proofs/C18P.vio Proofs/U2fP.vio
+Properties/C08.vos Properties/C08.vok Properties/C08.required_vos: Properties/C08.v Model/Base.vos Model/Schema.vos Model/Wire.vos Model/Typed.vos Model/Procs.vos Model/Inst.vos Spec/Tables.vos Spec/ProcTables.vos Proofs/Finite.vos Proofs/FramingP.vos Proofs/WireP.vos Proofs/C18P.vos Proofs/U2fP.vos
